@@ -1980,3 +1980,36 @@ def c07_cases(rng, n):
                 vs.append(Variant('V%d' % j, sh, fs, va))
             out.append(Item('enum', 'E', 'named', '', attrs, vs, {'gen': 'c07_enum'}))
     return out
+
+
+def c04_repeat_items(rng, n):
+    """trait instructions of one name under repeat(..) blocks, each declaring its own counterpart and error type"""
+    out = []
+    for i in range(n):
+        nm = rng.choice(TRAIT_NAMES)
+        enum = rng.random() < 0.3 and 'existing' not in nm
+        cps = rng.sample(['A', 'B', 'C', 'x::D', 'G<u8>'], rng.choice([2, 3, 4]))
+        errs = ['Er', 'x::Er2', 'Er3<String>', 'Er4', 'Er5']
+        rng.shuffle(errs)
+        attrs = []
+        for j, cp in enumerate(cps):
+            ps = []
+            if j == 0 or rng.random() < 0.15:
+                if j > 0:
+                    ps.append('stop_repeat')
+                ps.append('repeat(%s)' % rng.choice(['', 'vars', 'update', 'vars, quick_return']))
+                ps.append(rng.choice(['vars(k: { 1 })', 'return mk(@)', 'vars(k: { 1 }), return mk(@)']))
+            elif rng.random() < 0.2:
+                ps.append('skip_repeat')
+            attrs.append(trait_attr(nm, cp, '', errs[j], ', '.join(ps)))
+        if rng.random() < 0.5:
+            other = rng.choice([x for x in TRAIT_NAMES if not (set(kinds_of(x)) & set(kinds_of(nm))) and (not enum or 'existing' not in x)] or [nm])
+            if other != nm:
+                attrs.insert(rng.randrange(len(attrs) + 1), trait_attr(other, 'Z', '', 'Ez'))
+        if enum:
+            it = Item('enum', 'E', 'named', '', attrs, [Variant('V'), Variant('W', 'tuple', [Field(None, 'i32')])])
+        else:
+            it = Item('struct', 'S', 'named', '', attrs, [Field('a', 'i32'), Field('b', 'i16')])
+        it.meta = {'gen': 'c04_repeat'}
+        out.append(it)
+    return out
